@@ -60,7 +60,11 @@ class DualVigilanceART(BaseART):
         params = {"rho_lower_bound": rho_lower_bound}
         assert base_module.params["rho"] > params["rho_lower_bound"] >= 0
         self.base_module = base_module
+        # BaseART.__init__ resets weight_sample_counter_, which delegates to the
+        # base module: constructing the wrapper must not alter a trained module
+        counter = base_module.weight_sample_counter_
         super().__init__(params)
+        base_module.weight_sample_counter_ = counter
         self.rho_lower_bound = rho_lower_bound
         self.map: dict[int, int] = dict()
 
